@@ -144,7 +144,28 @@ def run(ck, w):
                         orig = flow.origins_x(lib, b, a, through_calls=[r"<impl str>::as_bytes$", r"String::as_bytes$", r"String::as_str$"])
                         calls = flow.origin_calls(orig)
                         others = [x for x in orig if x[0] in ("param", "upvar", "const", "agg", "unknown")]
-                        if not calls or not all(comp_src.search(c) for c in calls) or others or not splits_ok:
+                        if calls and all(comp_src.search(c) for c in calls) and not others and splits_ok:
+                            continue
+                        # second idiom: the path is consumed with split_once('/'): the directory part (.0) is one component,
+                        # and the remaining tail is compared only after split_once found no further '/' in it
+                        so_ok = False
+                        so_calls = [x for x in orig if x[0] == "call" and x[1].endswith("<impl str>::split_once")]
+                        if so_calls and all(x[0] != "call" or x[1].endswith("<impl str>::split_once") for x in orig):
+                            heads_only = all(x[3][:2] in (("as Some", "0"),) or (x[3] and x[3][-1] == "0") for x in so_calls)
+                            examined = [x2 for x2 in b.events if x2.bb in b.live and x2.name.endswith("<impl str>::split_once") and len(x2.args) > 1
+                                        and x2.args[1].get("int") == "47" and flow.operand_local(x2.args[0]) is not None]
+                            al = flow.operand_local(a)
+                            same_var = False
+                            if al is not None:
+                                ca = flow.result_carriers(b, al)
+                                for x2 in examined:
+                                    rl = flow.operand_local(x2.args[0])
+                                    if rl in ca or al in flow.result_carriers(b, rl) or (flow.origins(b, al) & flow.origins(b, rl)):
+                                        same_var = True
+                            if all(x2.args[1].get("int") == "47" for x2 in b.events if x2.bb in b.live and x2.name.endswith("<impl str>::split_once") and len(x2.args) > 1) \
+                                    and (heads_only or same_var):
+                                so_ok = True
+                        if not so_ok:
                             problems.append((e, flow.origin_summary(orig)))
         if problems:
             for e, why in problems[:4]:
@@ -159,7 +180,7 @@ def run(ck, w):
     # ---- 2. sorted before emitted --------------------------------------------------------------------
     fh = w.body("index::write::IndexWriter::finish_hunk")
     o = ck.ob("C11.2a", "finish_hunk: self.entries is sorted by apath (Apath::cmp) before it is serialised, nothing pushed in between")
-    srt = [e for e in fh.events if e.bb in fh.live and re.search(r"<impl \[T\]>::sort(_unstable)?(_by|_by_key)?$", e.name)]
+    srt = [e for e in fh.events if e.bb in fh.live and re.search(r"<impl \[T\]>::sort(_unstable)?(_by|_by_key|_by_cached_key)?$", e.name)]
     ser = [e for e in fh.events if e.bb in fh.live and e.name.startswith("serde_json::to_")]
     good = True
     if not srt or not ser:
@@ -176,9 +197,13 @@ def run(ck, w):
         # comparator closure
         cmp_ok = srt[0].name.endswith("sort") or srt[0].name.endswith("sort_unstable")
         for a in srt[0].args[1:]:
-            for oo in flow.origins(fh, a):
-                if oo[0] == "agg" and oo[1] in lib.bodies:
-                    cb = lib.bodies[oo[1]]
+            cands = [oo[1] for oo in flow.origins(fh, a) if oo[0] == "agg" and oo[1] in lib.bodies]
+            if a.get("k") == "const" and a.get("fn") in lib.bodies:
+                cands.append(a["fn"])          # a named comparator function
+            cands += [oo[2] for oo in flow.origins(fh, a) if oo[0] == "const" and oo[1] == "fn" and oo[2] in lib.bodies]
+            for cname in cands:
+                if True:
+                    cb = lib.bodies[cname]
                     cs = [e for e in cb.events if e.bb in cb.live and e.name == "<apath::Apath as std::cmp::Ord>::cmp"]
                     if cs:
                         a0 = flow.origins_x(lib, cb, cs[0].args[0])
@@ -186,11 +211,21 @@ def run(ck, w):
                         p0 = {x[1] for x in a0 if x[0] == "param" and "apath" in x[2]}
                         p1 = {x[1] for x in a1 if x[0] == "param" and "apath" in x[2]}
                         # closure params a, b in that order (ascending)
-                        names = [cb.local_names.get(i) for i in range(2, cb.arg_count + 1)]
+                        first = 2 if cb.kind in ("closure", "coroutine") else 1
+                        names = [cb.local_names.get(i) for i in range(first, cb.arg_count + 1)]
                         if len(names) == 2 and p0 == {names[0]} and p1 == {names[1]}:
                             ret = flow.origins_x(lib, cb, 0)
                             if flow.origin_calls(ret) == {"<apath::Apath as std::cmp::Ord>::cmp"} and not [e for e in cb.events if e.bb in cb.live and e.name.endswith("Ordering::reverse")]:
                                 cmp_ok = True
+        if not cmp_ok and re.search(r"_by(_cached)?_key$", srt[0].name):
+            # sort_by_key(|e| e.apath.clone()): the key must be the entry's apath itself (ordered by Apath::cmp)
+            for a in srt[0].args[1:]:
+                for cname in [oo[1] for oo in flow.origins(fh, a) if oo[0] == "agg" and oo[1] in lib.bodies]:
+                    kb = lib.bodies[cname]
+                    ko = flow.origins_x(lib, kb, 0)
+                    if "apath::Apath" in (kb.ret or "") and not kb.ret.startswith("(") and \
+                            any(x[0] == "param" and "apath" in x[2] for x in ko) and not [x for x in ko if x[0] in ("call", "arith", "agg")]:
+                        cmp_ok = True
         if not cmp_ok:
             good = False
             ck.fail(o, fh.name, "sort comparator is not a.apath.cmp(&b.apath)", "comparator closure changed", srt[0].site())
@@ -331,6 +366,31 @@ def run(ck, w):
     else:
         ck.ok(o, "%d construction(s)" % n, instances=n)
     _is_valid_language(ck, w)
+    o = ck.ob("C11.3c", "the string conversions of Apath (FromStr, From<&str>, From<String>) validate and keep exactly the text they were given: "
+                        "nothing trims, normalises or rewrites it first")
+    rewriters = re.compile(r"<impl str>::(trim|trim_start|trim_end|trim_matches|trim_start_matches|trim_end_matches|to_lowercase|to_uppercase|"
+                           r"to_ascii_lowercase|to_ascii_uppercase|replace|replacen|strip_prefix|strip_suffix|split|rsplit|nfc|nfd)$|"
+                           r"unicode_normalization|Path::(canonicalize|components)$")
+    n_conv = 0
+    bad = []
+    for b in rules.user_bodies(lib):
+        if rules.is_derive_body(b) or b.file != "src/apath.rs":
+            continue
+        if not ((b.trait or "").startswith("std::str::FromStr") or (b.trait or "").startswith("std::convert::From<") or (b.trait or "").startswith("std::convert::TryFrom<")):
+            continue
+        if "apath::Apath" not in (b.self_ty or ""):
+            continue
+        n_conv += 1
+        for e in b.events:
+            if e.bb in b.live and rewriters.search(e.name):
+                bad.append((b, e))
+    ck.floor("C11.3c.n", "string conversions into Apath", n_conv, 2)
+    if bad:
+        b, e = bad[0]
+        ck.fail(o, b.root, "the text is rewritten before it becomes an Apath", "%s calls %s: distinct strings then map to one path, and the accepted "
+                "language is no longer the documented one" % (b.root, e.name.split("::")[-1]), e.site())
+    else:
+        ck.ok(o, "%d conversion(s)" % n_conv, instances=n_conv)
 
 
 def _is_valid_language(ck, w):
